@@ -48,6 +48,12 @@ type getReq struct {
 	Status int
 	Body   string
 	Done   bool
+	// a request to the gated handler "h" whose HTTP request context the workload
+	// cancels while the handler is held
+	Tag       string
+	CancelCtx bool
+	cancel    context.CancelFunc
+	Cancelled bool // the context was cancelled while the handler was provably held
 }
 
 func scenarioC19Getter(r *Run) {
@@ -65,7 +71,16 @@ func scenarioC19Getter(r *Run) {
 	for c := 0; c < ncallers; c++ {
 		var l []*getReq
 		for e := 0; e < 1+g.Int("nreq", 2); e++ {
-			path := []string{"/echo", "/some/echo/", "/nope", "/", "/fail", "//echo//", "/echo"}[g.Int("path", 7)]
+			path := []string{"/echo", "/some/echo/", "/nope", "/", "/fail", "//echo//", "/echo", "/fail-32602", "/fail-32603", "/fail-32600", "/fail-32097", "/fail-32096", "/fail-32098", "/fail-32700", "/h"}[g.Int("path", 15)]
+			if path == "/h" {
+				// a call to the gated handler, possibly abandoned by its HTTP caller
+				tag := fmt.Sprintf("g%d.%d", c, e)
+				q := &getReq{URL: "http://getter.test/h?t=" + tag, Tag: tag, CancelCtx: g.Chance("cancelctx", 0.6)}
+				th.add(tag, g.Int("hsteps", 3), q.CancelCtx || g.Chance("hold", 0.4))
+				l = append(l, q)
+				sample = append(sample, fmt.Sprintf("caller %d: GET %s (context cancelled while held: %v)", c, q.URL, q.CancelCtx))
+				continue
+			}
 			nq := g.Int("nquery", 4)
 			var qs []string
 			bad := g.Chance("malformed", 0.15)
@@ -105,6 +120,11 @@ func scenarioC19Getter(r *Run) {
 			rt.Block("caller:start", func() bool { return started })
 			for _, q := range l {
 				req := httptest.NewRequest("GET", q.URL, nil)
+				if q.CancelCtx {
+					ctx, cancel := context.WithCancel(context.Background())
+					q.cancel = cancel
+					req = req.WithContext(ctx)
+				}
 				rec := httptest.NewRecorder()
 				rt.Yield("http:get")
 				getter.ServeHTTP(rec, req)
@@ -113,8 +133,30 @@ func scenarioC19Getter(r *Run) {
 			}
 		})
 	}
-	if !r.RunQ() {
-		return
+	for {
+		if !r.RunQ() {
+			return
+		}
+		hs := th.holding()
+		if len(hs) == 0 {
+			break
+		}
+		h := hs[g.Int("release", len(hs))]
+		// the HTTP caller of a held request gives up first, then the handler is released
+		for _, l := range reqs {
+			for _, q := range l {
+				if q.Tag == h.Tag && q.CancelCtx && q.cancel != nil && !q.Cancelled && !q.Done {
+					q.Cancelled = true
+					r.Ev("http.ctxcancel", q.Tag, 0, 0, "")
+					q.cancel()
+					r.Probe("http-caller-gave-up-while-handler-held")
+					if !r.RunQ() {
+						return
+					}
+				}
+			}
+		}
+		h.Released = true
 	}
 	for _, l := range reqs {
 		for _, q := range l {
@@ -201,8 +243,8 @@ func judgeGet(q *getReq, useQuery bool) (why, cls string) {
 			return fmt.Sprintf("the parser produced parameters %s, the documented typing rules give %s", got, rbits), "wrong-typing"
 		}
 	}
-	switch method {
-	case "echo", "some/echo":
+	switch {
+	case method == "echo" || method == "some/echo":
 		want := string(pbits)
 		if params == nil {
 			want = "null"
@@ -210,9 +252,18 @@ func judgeGet(q *getReq, useQuery bool) (why, cls string) {
 		if q.Status != 200 || compactJSON(q.Body) != compactJSON(want) {
 			return fmt.Sprintf("want 200 with the parameters %s echoed", want), "wrong-status"
 		}
-	case "fail":
-		if q.Status != 500 || !strings.Contains(q.Body, "1234") {
-			return "want 500 with the handler's error object", "wrong-status"
+	case strings.HasPrefix(method, "fail"):
+		// any failure other than a parse error or method-not-found is a 500
+		if q.Status != 500 {
+			return "want 500 (with a JSON body) for a failing handler, whatever its code", "wrong-status"
+		}
+	case method == "h":
+		if q.Cancelled {
+			if q.Status != 500 {
+				return "the request's context ended while its handler was held: want 500", "wrong-status"
+			}
+		} else if q.Status != 200 || compactJSON(q.Body) != fmt.Sprintf(`{"tag":%q}`, q.Tag) {
+			return "want 200 with the handler's result", "wrong-status"
 		}
 	default:
 		if q.Status != 404 {
